@@ -11,6 +11,21 @@ COMMON_NOTE = ("Trusted base: Coq 8.16.1 kernel + vm_compute (no native_compute,
                "modelled, not verified. ")
 
 CLAIMED = {
+ "C16": dict(
+  text="Theorems over the reals about a hand model of Translate / Rotate / Mirror (ASE's quaternion rotation matrix written out): exactly the selected atoms "
+       "are moved, the others untouched, none added or lost; translation, point mirror, plane mirror and rotation by a unit quaternion about a centre are "
+       "isometries with the stated inverses / involutions and fixed sets, and ANY non-zero multiple of (normal, offset) defines the same plane mirror; "
+       "linear interpolation hits both end points; a uniform rattle stays within its amplitude. Axiom-free: itertools-order combinations are exactly the "
+       "subsequences of the selection of the requested size, each once, C(N,n) in all. Tied to the code by correspondence (transform outputs vs the model in "
+       "exact rationals, substitution sites in order) and oracles: purity by snapshots, inverse motions, scaled coordinates with atoms outside the cell, "
+       "linspaceGen end points / straight line / nearest-image target by exact minimum image, rattleGen bounds for scalar/N/Nx3 amplitudes, Poisson-sphere "
+       "minimum distances under periodic boundaries and contact distance to atoms, reseed reproducibility of every stochastic generator.",
+  note="PARTIAL: reseed reproducibility, the Poisson-sphere guarantee of the Bridson sampler and the periodic interpolation target are decided by run-twice / "
+       "exact-distance oracles only (no theorem about the sampler or its neighbour masks). ase.Atoms copying is exercised, not modelled. Translate.get(..., "
+       "selection=...) is not used (keyword clash with AtomsProperty.get, F-16c noted in DESIGN); the instance-call form is. Three defects found by this check "
+       "were repaired (88b4609, ea27770, 3e5dd31).",
+  technique="Coq proof (Reals ring/field/nra; lists, no axioms for combinations) of hand models + differential correspondence + exact and run-twice oracles",
+  design="§8 C16"),
  "C11": dict(
   text="Axiom-free theorems over Z about a hand model of the pair enumeration of DipolarCoupling and of the image set of DipolarRSS: (a,b) is a key iff "
        "a<=b, it joins an atom of one selection with an atom of the other, a<>b unless self-coupling, same element if isonuclear; keys are not repeated; the "
